@@ -18,6 +18,11 @@ func geodeticDistAlgo(center [2]float64) (
 			max[0] = r.Max.X
 			max[1] = r.Max.Y
 		}
+		// Boxes may reach slightly beyond the poles (outward float32 rounding,
+		// or coordinates one ulp past +-90 such as a decoded geohash). The
+		// distance algorithm is only defined for latitudes within [-90, 90].
+		min[1] = math.Max(min[1], -90)
+		max[1] = math.Min(max[1], 90)
 		return earthRadius * pointRectDistGeodeticDeg(
 			center[1], center[0],
 			min[1], min[0],
